@@ -10,10 +10,11 @@ matrices `row;row;…` (`-` = no rows).  Bases live in named registers.
 
 ```
 reset
-new NAME dense NPIX NMODES ROWS
-new NAME csc NPIX NMODES INDPTR INDICES DATA
-new NAME fields NPIX MODES               (MODES: one vector per mode)
-new NAME rows NPIX IDXLISTS VALLISTS      (one sparse row vector per mode)
+new NAME ndarray NPIX NMODES ROWS                      (a 2-D ndarray)
+new NAME spmat csc|csr|coo NPIX NMODES P Q DATA        (csc/csr: indptr indices; coo: row col)
+new NAME seq list|tuple ITEMS                          (ITEMS: item;item;… or -; item = d|VECTOR
+                                                        or s|NROWS|NCOLS|INDICES|VALUES)
+                                          -> ok KIND NPIX NMODES ROWS | err value   (through `fromInput`)
 desc NAME                                 -> ok KIND NPIX NMODES ROWS
 lc NAME COEFFS                            -> ok VECTOR
 get NAME DST new|old int K | slice A B C | list [..] | mask [0,1,..]
@@ -88,6 +89,41 @@ def nnz : Basis CRat → Nat
   | .dense n m _ => n * m
   | .sparse _ _ cols => (cols.map List.length).sum
 
+def parseMode? (s : String) : Option (Mode CRat) :=
+  match s.splitOn "|" with
+  | ["d", v] => (parseVec? v).map Mode.vec
+  | ["s", nr, nc, idx, vals] => do
+    let nr ← parseNat? nr; let nc ← parseNat? nc
+    let ix ← parseNatList? idx; let vs ← parseVec? vals
+    if ix.length == vs.length && ix.all (· < nc) then pure (Mode.sp nr nc (ix.zip vs)) else none
+  | _ => none
+
+/-- the description of the Python object handed to `ModeBasis(...)`; shapes and index ranges
+that NumPy/SciPy guarantee are validated here (never defaulted) -/
+def parseInput? : List String → Option (Input CRat)
+  | ["ndarray", npix, nmodes, rows] => do
+    let n ← parseNat? npix; let m ← parseNat? nmodes; let r ← parseMat? rows
+    if wellShaped n m r then pure (.ndarray n m r) else none
+  | ["spmat", fmt, npix, nmodes, p, q, data] => do
+    let n ← parseNat? npix; let m ← parseNat? nmodes
+    let p ← parseNatList? p; let q ← parseNatList? q; let d ← parseVec? data
+    match fmt with
+    | "csc" =>
+      if p.length == m + 1 && q.length == d.length && q.all (· < n) && p.getLast? == some d.length then
+        pure (.spmat .csc n m p q d) else none
+    | "csr" =>
+      if p.length == n + 1 && q.length == d.length && q.all (· < m) && p.getLast? == some d.length then
+        pure (.spmat .csr n m p q d) else none
+    | "coo" =>
+      if p.length == d.length && q.length == d.length && p.all (· < n) && q.all (· < m) then
+        pure (.spmat .coo n m p q d) else none
+    | _ => none
+  | ["seq", kind, items] => do
+    let t ← (if kind == "tuple" then some true else if kind == "list" then some false else none)
+    let ms ← (if items == "-" then some [] else (items.splitOn ";").mapM parseMode?)
+    pure (.seq t ms)
+  | _ => none
+
 def mirrorStep (st : St) : List String → St × String
   | ["new", npix, nmodes, rows] =>
     match parseNat? npix, parseNat? nmodes, parseMat? rows with
@@ -152,35 +188,14 @@ def mirrorStep (st : St) : List String → St × String
 
 def step (st : St) : List String → St × String
   | ["reset"] => ({}, "ok")
-  | ["new", name, "dense", npix, nmodes, rows] =>
-    match parseNat? npix, parseNat? nmodes, parseMat? rows with
-    | some n, some m, some r =>
-      if wellShaped n m r then
-        let b := fromDense n m r; (store st name b, "ok " ++ desc b)
-      else (st, "bad-op")
-    | _, _, _ => (st, "bad-op")
-  | ["new", name, "csc", npix, nmodes, indptr, indices, data] =>
-    match parseNat? npix, parseNat? nmodes, parseNatList? indptr, parseNatList? indices, parseVec? data with
-    | some n, some m, some ip, some ix, some d =>
-      if ip.length == m + 1 && ix.length == d.length && ix.all (· < n) && ip.getLast? == some d.length then
-        let b := fromCSC n m ip ix d; (store st name b, "ok " ++ desc b)
-      else (st, "bad-op")
-    | _, _, _, _, _ => (st, "bad-op")
-  | ["new", name, "fields", npix, modes] =>
-    match parseNat? npix, parseMat? modes with
-    | some n, some ms =>
-      if ms.all (·.length == n) && !ms.isEmpty then
-        let b := fromFields n ms; (store st name b, "ok " ++ desc b)
-      else (st, "bad-op")
-    | _, _ => (st, "bad-op")
-  | ["new", name, "rows", npix, idx, vals] =>
-    match parseNat? npix, parseLists? parseNatList? idx, parseMat? vals with
-    | some n, some ix, some vs =>
-      if ix.length == vs.length && !ix.isEmpty &&
-          (List.zipWith (fun (a : List Nat) (b : List CRat) => a.length == b.length && a.all (· < n)) ix vs).all id then
-        let b := fromSparseRows n (List.zipWith List.zip ix vs); (store st name b, "ok " ++ desc b)
-      else (st, "bad-op")
-    | _, _, _ => (st, "bad-op")
+  | "new" :: name :: spec =>
+    -- every basis is built by `fromInput` from a description of the Python object
+    match parseInput? spec with
+    | none => (st, "bad-op")
+    | some inp =>
+      match fromInput inp with
+      | some b => (store st name b, "ok " ++ desc b)
+      | none => (st, "err value")
   | ["desc", name] =>
     match lookup st name with
     | some b => (st, "ok " ++ desc b)
